@@ -28,6 +28,10 @@ def extras(rnd):
             out.append((" " * pad + body).encode())
             out.append((body.replace(",", " ,\t") + " " * pad + "; c").encode())
             out.append((body + "\t" * pad + "\r\nret").encode())
+    for kept in (98, 99, 100):
+        body = "add rax, 0x" + "0" * (kept - 12) + "12"
+        for tail in ("", " ", "\t", "  \t ", " ;c", ";c", "\r\n", " \r\n", "\r", " \r", " % m", " !", " x", "\n"):
+            out.append((body + tail).encode())
     base = ["add rax, rcx", "MOV  RAX ,\t[ RBX + 4 * RCX - 0x10 ]", "\tvpaddb ymm1,ymm2,[rax]", "lea rcx, [rax+rsp] % m", "label:", "  ; only", "ret\r", "Jmp Short 0x5",
             "mov qword [rax], 0x5", "\x01\x02add rax, rcx", "add\x7frax", "add rax, \xff", "add r\x80x, rcx ; c", "a" * 99, "a" * 98 + " b", " " * 150 + "nop", "nop" + " " * 150]
     out += [b.encode("latin-1") for b in base]
@@ -69,6 +73,16 @@ def run(tier, rnd):
             f.write("\n".join(lines) + "\n")
             total += cnt
             os.unlink(inp); os.unlink(outp)
+    # the clauses at the capacity of the filter buffer: model-only proof with the buffer scaled down to 3 (and 4) bytes, so that the
+    # small domain contains lines that fill it exactly and lines that are one character too long
+    capped = []
+    for fcap, fn in ((3, 4),) if tier == "quick" else ((3, 4), (4, 5)):
+        rc, out = A.tlc("AsmFilter", env={"FN": fn, "FSIG": "small", "FCHECK": 1, "FCAP": fcap}, xmx="8g", tag="filtercap-%d" % os.getpid(), timeout=3000)
+        if "MODEL-FAILS" in out:
+            raise A.Infra("the filter model violates its own clauses at capacity %d:\n%s" % (fcap, out[-1500:]))
+        if rc != 0 or '<<"JUDGED", 0>>' not in out:
+            raise A.Infra("capped AsmFilter run failed (rc=%s):\n%s" % (rc, out[-2000:]))
+        capped.append({"buffer": fcap, "max_length": fn})
     rc, out = A.tlc("AsmFilter", env={"TRACE": tr, "FN": n, "FSIG": which, "FCHECK": 1}, xmx="8g", tag="filter-%d" % os.getpid(), timeout=3000)
     m = re.search(r'<<"JUDGED", (\d+)>>', out)
     if rc != 0 or not m or int(m.group(1)) != total:
@@ -82,4 +96,4 @@ def run(tier, rnd):
             bad.append((strings[int(mm.group(1)) - 1], mm.group(2)))
     if nraw != len(bad):
         raise A.Infra("unparsable BAD lines in the AsmFilter output")
-    return bad, total, {"alphabet": which, "max_length": n, "domain_strings": len(dom), "extra_strings": total - len(dom), "model_clauses_proved_on_domain": True}
+    return bad, total, {"alphabet": which, "max_length": n, "domain_strings": len(dom), "extra_strings": total - len(dom), "model_clauses_proved_on_domain": True, "model_clauses_proved_with_scaled_buffer": capped}
